@@ -8,7 +8,7 @@ import sys
 from concurrent.futures import ThreadPoolExecutor
 
 VERIF = os.path.dirname(os.path.dirname(os.path.abspath(__file__)))
-WT = "/tmp/w/benign-wt"
+WT = os.environ.get("BENIGN_WT", "/tmp/w/benign-wt")
 
 
 def sh(cmd, **kw):
@@ -33,7 +33,7 @@ def main():
         suite = out.strip()
 
         def one(p):
-            rc, out = sh(f"VERIF_REPO={WT} VERIF_EVIDENCE_DIR=/tmp/benign-evidence timeout 1500 ./check {p} --tier quick", cwd=VERIF)
+            rc, out = sh(f"VERIF_REPO={WT} VERIF_EVIDENCE_DIR=/tmp/benign-evidence-{os.path.basename(WT)} timeout 1500 ./check {p} --tier quick", cwd=VERIF)
             v = [l for l in out.splitlines() if l.startswith("VIOLATION")]
             kind = "-"
             detail = ""
